@@ -83,6 +83,26 @@ Proof.
 Qed.
 Print Assumptions C16_vrf_msg_function.
 
+(* verifyBlockVRF reads, of the block header, ProveValue, CurTime, Height and TotalQN and, of the
+   parent, Random, CurTime and TotalQN — nothing else (not bh.PreTime, not bh.Castor): two header pairs
+   that agree on these fields get the same verdict; and an accepted block's proof verifies for the
+   message H^(delta-1)(parent.Random) with delta computed from (bh.CurTime, parent.CurTime) *)
+Theorem C16_block_message_binding :
+  forall (Hsh : bytes -> bytes) (V : bytes -> bytes -> bytes -> bool) p pk wm ts,
+  (forall bh bh' pre pre',
+     h_prove bh = h_prove bh' -> h_cur bh = h_cur bh' -> h_height bh = h_height bh' ->
+     h_total_qn bh = h_total_qn bh' ->
+     h_random pre = h_random pre' -> h_cur pre = h_cur pre' -> h_total_qn pre = h_total_qn pre' ->
+     verify_block_vrf Hsh V p bh pre pk wm ts = verify_block_vrf Hsh V p bh' pre' pk wm ts) /\
+  (forall bh pre, verify_block_vrf Hsh V p bh pre pk wm ts = true ->
+     V pk (h_prove bh) (gen_vrf_msg Hsh (h_random pre) (delta_of (h_cur bh) (h_cur pre))) = true).
+Proof.
+  exact (fun Hsh V p pk wm ts =>
+    conj (fun bh bh' pre pre' => verify_block_vrf_reads Hsh V p bh bh' pre pre' pk wm ts)
+         (fun bh pre => verify_block_vrf_binds Hsh V p bh pre pk wm ts)).
+Qed.
+Print Assumptions C16_block_message_binding.
+
 (* ---------------- quality number ---------------- *)
 
 (* exact rational arithmetic: whenever the rule accepts, 1 <= qn <= MaxQN — provided the lottery
